@@ -71,11 +71,14 @@ func VerifC18Idle() {
 	if elapsed < c18Timeout {
 		verifAssert(err == nil, "a packet of a tracked flow that was idle for less than the timeout passes without a rule")
 	}
-	var o uint64
-	if err == nil {
-		o = 1
+	// observed only where the outcome does not depend on how fast the machine runs the harness
+	if gap > c18Timeout {
+		var o uint64
+		if err == nil {
+			o = 1
+		}
+		verifObserve("reply_passed", o)
 	}
-	verifObserve("reply_passed", o)
 }
 
 // VerifC18Tuple: tracking is per tuple: a different port, address or protocol is a different flow.
@@ -96,4 +99,38 @@ func VerifC18Tuple() {
 	err2 := fw.Drop(in2, true, h, pool, nil)
 	verifAssume(time.Now().Sub(t0) < c18Timeout) // the three packets arrive well inside the timeout
 	verifAssert((err2 == nil) == (in2.LocalPort == 80 || in2 == flow || (same && in2 == other)), "inbound packets of other flows are judged by the rules")
+}
+
+// VerifC18Churn: two flows are created, stay idle for an arbitrary gap, then an unrelated allowed flow arrives
+// (turning the timer wheel) before the reply-direction packet of one of the idle flows is judged.
+func VerifC18Churn() {
+	fw, h, pool := c18Setup()
+	pa, pb, pc := verifU16("rport_a"), verifU16("rport_b"), verifU16("rport_c")
+	verifAssume(pa != pb && pa != pc && pb != pc)
+	a, b, c := c18Packet(pa, 80, firewall.ProtoTCP), c18Packet(pb, 80, firewall.ProtoTCP), c18Packet(pc, 80, firewall.ProtoTCP)
+	t0 := time.Now()
+	verifAssert(fw.Drop(a, true, h, pool, nil) == nil, "the inbound packet is allowed by the rule")
+	verifAssert(fw.Drop(b, true, h, pool, nil) == nil, "the inbound packet is allowed by the rule")
+	gap := c18Gap("idle_ms")
+	verifAssert(fw.Drop(c, true, h, pool, nil) == nil, "the inbound packet is allowed by the rule")
+	stale := a
+	if verifBool("reply_of_b") {
+		stale = b
+	}
+	err := fw.Drop(stale, false, h, pool, nil)
+	elapsed := time.Now().Sub(t0)
+	if gap > c18Timeout {
+		verifAssert(err != nil, "a flow idle for longer than its timeout is not honoured again, whatever else the table holds")
+	}
+	if elapsed < c18Timeout {
+		verifAssert(err == nil, "a packet of a tracked flow that was idle for less than the timeout passes without a rule")
+	}
+	// observed only where the outcome does not depend on how fast the machine runs the harness
+	if gap > c18Timeout {
+		var o uint64
+		if err == nil {
+			o = 1
+		}
+		verifObserve("reply_passed", o)
+	}
 }
